@@ -184,7 +184,7 @@ func RunOne(t *testing.T, e Engine, tape *simrt.Tape, detail bool) (res *Result)
 			res.Points = append(res.Points, p)
 		}
 		if detail {
-			res.Schedule = s.Trace
+			res.Schedule = append(s.Trace, s.Tail...)
 		}
 		for _, tr := range s.Trace {
 			fmt.Fprintf(h, "%d %s %d %d %d\n", tr.Step, tr.Task, tr.Point, tr.AdvNs, tr.NowNs)
@@ -633,6 +633,9 @@ func trimTo(cand, consumed [][]uint32) [][]uint32 {
 func (r *Run) Start(cfg simrt.Config) *simrt.Sim {
 	raceMark()
 	r.Sim = simrt.New(r.Tape, cfg)
+	if r.Detail {
+		r.Sim.TraceTail = 200
+	}
 	return r.Sim
 }
 
